@@ -16,7 +16,7 @@ import PdModel.Proto
       each `@` record gives the listing of directory PATH (`/`-joined names) in FILE-SYSTEM order,
       ENTRY = `f=<name>` | `p=<name>` (directory with __init__.py) | `d=<name>` (other directory)
                                         → `ok (P|M|C)=<path>*` the analyzeModule/introspectModule calls in order
-* `run DIR* | OP*`                    → `ok wf=<yes|no|noshape> DIR*` | `FileExistsError` | `LinkChain`
+* `run DIR* | OP*`                    → `ok wf=<yes|no|noshape> DIR*` | `FileExistsError` | `ELOOP`
       DIR = `F=<name>=<content>` | `L=<name>=<target>`; OP = `W=<name>=<content>` | `U=<name>` | `S=<name>=<target>`
       the answer lists the final directory sorted by name.
 -/
@@ -145,7 +145,7 @@ def handle (args : List String) : String :=
       (match run ops d with
        | .ok d' => "ok wf=" ++ wf ++ (if d'.isEmpty then "" else " " ++ showDir d')
        | .error .fileExists => "FileExistsError"
-       | .error .linkChain => "LinkChain")
+       | .error .eloop => "ELOOP")
     | _, _ => "bad-op"
   | _ => "bad-op"
 
